@@ -625,7 +625,7 @@ impl<'a> Cx<'a> {
             }
             Expr::Match(m) => {
                 let (s, st) = self.scrutinee(&m.expr)?;
-                self.match_arms(&s, &st, &m.arms)
+                self.match_arms(&s, &st, &m.arms.iter().collect::<Vec<_>>())
             }
             Expr::Block(b) => self.block(&b.block),
             Expr::Tuple(t) => {
@@ -684,6 +684,10 @@ impl<'a> Cx<'a> {
         if segs.len() == 1 {
             let name = &segs[0];
             if let Some((lean, ty)) = self.lookup(name) {
+                if name == "self" && !self.mutated.is_empty() {
+                    // `self` as a whole value in a state-updating method: the state as updated so far
+                    return Ok((L::atom(self.new_self()), ty));
+                }
                 return Ok((L::atom(lean), ty));
             }
             if name == "None" {
@@ -715,6 +719,15 @@ impl<'a> Cx<'a> {
         Ok((L::atom(lean), Ty::Named(en)))
     }
 
+    /// `self` with every assigned field replaced by its mutable local.
+    fn new_self(&self) -> String {
+        if self.mutated.is_empty() {
+            return "self".into();
+        }
+        let upd: Vec<String> = self.mutated.iter().map(|f| format!("{} := self_{}", f, f)).collect();
+        format!("{{ self with {} }}", upd.join(", "))
+    }
+
     /// A name the slice does not bind: it becomes a parameter (default type `Int`).
     fn add_free(&mut self, text: &str) -> (L, Ty) {
         let lean = lean_ident(&text.replace('.', "_"));
@@ -738,7 +751,10 @@ impl<'a> Cx<'a> {
             return Err(format!("tuple field access `{}` is outside the subset", toks(e)));
         };
         let m = m.to_string();
-        let (b, bt) = self.expr(&f.base)?;
+        let (b, bt) = match (dotted(&f.base).as_deref(), self.lookup("self")) {
+            (Some("self"), Some((lean, ty))) => (L::atom(lean), ty),
+            _ => self.expr(&f.base)?,
+        };
         let Ty::Named(s) = &bt else {
             return Err(format!("field access on a value of untranslated type: `{}`", toks(e)));
         };
@@ -777,7 +793,7 @@ impl<'a> Cx<'a> {
                 _ => Err(format!("arithmetic `{}` on non-integer operands (`{}`)", op, toks(e))),
             }
         };
-        let divrem = |cx: &mut Self, is_div: bool, l: L, r: L| -> R<(L, Ty)> {
+        let divrem = |is_div: bool, l: L, r: L| -> R<(L, Ty)> {
             let Ty::Int(Some(k)) = &ty else {
                 return Err(format!("cannot determine the signedness of `{}`", toks(e)));
             };
@@ -798,7 +814,6 @@ impl<'a> Cx<'a> {
                     cs.push(Cond::Range(lo, hi));
                 }
             }
-            let _ = cx;
             Ok((L::Chk(bx(L::app(f, vec![l, r])), cs), ty.clone()))
         };
         let cmp = |f: &str, l: L, r: L| -> R<(L, Ty)> { Ok((L::app(f, vec![l, r]), Ty::Bool)) };
@@ -807,8 +822,8 @@ impl<'a> Cx<'a> {
             BinOp::Add(_) => arith(self, "+", l, r),
             BinOp::Sub(_) => arith(self, "-", l, r),
             BinOp::Mul(_) => arith(self, "*", l, r),
-            BinOp::Div(_) => divrem(self, true, l, r),
-            BinOp::Rem(_) => divrem(self, false, l, r),
+            BinOp::Div(_) => divrem(true, l, r),
+            BinOp::Rem(_) => divrem(false, l, r),
             BinOp::And(_) => Ok((L::Infix("&&", bx(l), bx(r)), Ty::Bool)),
             BinOp::Or(_) => Ok((L::Infix("||", bx(l), bx(r)), Ty::Bool)),
             BinOp::Eq(_) if structural => Ok((L::Infix("==", bx(l), bx(r)), Ty::Bool)),
@@ -862,13 +877,27 @@ impl<'a> Cx<'a> {
         self.expr(e)
     }
 
-    /// Arms → Lean `match`. A guarded arm becomes `if guard then body else <match on the remaining arms>`.
-    fn match_arms(&mut self, s: &L, st: &Ty, arms: &[syn::Arm]) -> R<(L, Ty)> {
+    /// Arms → Lean `match`. A guarded arm becomes `| p => if guard then body else REST`, where REST
+    /// is a match on the same scrutinee over the *unguarded* arms before it plus every arm after it
+    /// (rustc requires the unguarded arms alone to be exhaustive, so REST is exhaustive too; the
+    /// earlier arms cannot fire there because the scrutinee did not match them).
+    fn match_arms(&mut self, s: &L, st: &Ty, arms: &[&syn::Arm]) -> R<(L, Ty)> {
         let mut out = vec![];
         let mut ty = Ty::Never;
+        // shapes of the guarded patterns so far: a later alternative of the same shape can never
+        // be reached at this level (it lives on inside REST), and Lean rejects redundant alternatives
+        let mut shadow: Vec<String> = vec![];
         for (i, arm) in arms.iter().enumerate() {
+            if shadow.iter().any(|x| x == "_") {
+                break;
+            }
             self.scopes.push(vec![]);
             let p = self.pat(&arm.pat, st, true)?;
+            let alts: Vec<&str> = p.split(" | ").filter(|a| !shadow.contains(&pat_shape(a))).collect();
+            if alts.is_empty() {
+                self.scopes.pop();
+                continue;
+            }
             let saved = self.arm_name.replace(toks(&arm.pat));
             let body = self.expr(&arm.body);
             self.arm_name = saved;
@@ -877,30 +906,19 @@ impl<'a> Cx<'a> {
             if let Some((_, g)) = &arm.guard {
                 let (gl, _) = self.expr(g)?;
                 self.scopes.pop();
-                let (rest, rt) = if i + 1 < arms.len() {
-                    self.match_arms(s, st, &arms[i + 1..])?
-                } else {
-                    return Err("guarded last match arm (non-exhaustive for the translator)".into());
-                };
-                ty = unify(&ty, &rt);
-                body = L::If(Box::new(gl), Box::new(body), Box::new(rest.clone()));
-                out.push((p, body));
-                // The remaining arms still apply when this pattern does not match at all; alternatives
-                // of the same shape as the guarded pattern can never be reached at this level (Lean
-                // rejects redundant alternatives), they live on inside `rest` only.
-                let shadow: Vec<String> = p.split(" | ").map(pat_shape).collect();
-                if let (L::Match(_, more), false) = (rest, shadow.iter().any(|x| x == "_")) {
-                    for (q, b) in more {
-                        let alts: Vec<&str> = q.split(" | ").filter(|a| !shadow.contains(&pat_shape(a))).collect();
-                        if !alts.is_empty() {
-                            out.push((alts.join(" | "), b));
-                        }
-                    }
+                let mut rest_arms: Vec<&syn::Arm> = arms[..i].iter().copied().filter(|a| a.guard.is_none()).collect();
+                rest_arms.extend(arms[i + 1..].iter().copied());
+                if rest_arms.is_empty() {
+                    return Err("a guarded arm is the only arm of its match".into());
                 }
-                break;
+                let (rest, rt) = self.match_arms(s, st, &rest_arms)?;
+                ty = unify(&ty, &rt);
+                body = L::If(Box::new(gl), Box::new(body), Box::new(rest));
+                shadow.extend(alts.iter().map(|a| pat_shape(a)));
+            } else {
+                self.scopes.pop();
             }
-            self.scopes.pop();
-            out.push((p, body));
+            out.push((alts.join(" | "), body));
         }
         let mut m = L::Match(Box::new(s.clone()), out);
         let dflt = if matches!(ty, Ty::Int(_)) { "0" } else { "default" };
@@ -1033,20 +1051,7 @@ impl<'a> Cx<'a> {
         }
         if let Ty::Named(s) = &rt {
             if let Some(fi) = self.reg.fns.get(&format!("{}::{}", s, name)).cloned() {
-                if fi.mut_self || fi.extra_params > 0 {
-                    return Err(format!("call of `{}::{}` (state-updating or cast-parameterised) is outside the subset", s, name));
-                }
-                let mut ls = vec![r];
-                for a in &args {
-                    ls.push(self.expr(a)?.0);
-                }
-                let f = self.qual(&fi.lean, &fi.module);
-                let call = L::App(f.clone(), ls.clone());
-                return Ok(if fi.trivial_in_range {
-                    (call, fi.ret)
-                } else {
-                    (L::Chk(Box::new(call), vec![Cond::Raw(format!("({})", L::App(format!("{}_inRange", f), ls).flat()))]), fi.ret)
-                });
+                return self.call_translated(&fi, vec![r], &args);
             }
         }
         match name.as_str() {
@@ -1125,6 +1130,23 @@ impl<'a> Cx<'a> {
         }
     }
 
+    /// Call of a function translated earlier in this run; its `_inRange` becomes a side condition.
+    fn call_translated(&mut self, fi: &FnInfo, mut ls: Vec<L>, args: &[&Expr]) -> R<(L, Ty)> {
+        if fi.mut_self || fi.extra_params > 0 {
+            return Err(format!("call of `{}` (state-updating or cast-parameterised) is outside the subset", fi.lean));
+        }
+        for a in args {
+            ls.push(self.expr(a)?.0);
+        }
+        let f = self.qual(&fi.lean, &fi.module);
+        let call = L::App(f.clone(), ls.clone());
+        if fi.trivial_in_range {
+            return Ok((call, fi.ret.clone()));
+        }
+        let pre = format!("({})", L::App(format!("{}_inRange", f), ls).flat());
+        Ok((L::Chk(Box::new(call), vec![Cond::Raw(pre)]), fi.ret.clone()))
+    }
+
     fn call(&mut self, c: &syn::ExprCall, e: &Expr) -> R<(L, Ty)> {
         let Expr::Path(p) = &*c.func else {
             return Err(format!("unsupported call `{}`", short(e)));
@@ -1156,20 +1178,7 @@ impl<'a> Cx<'a> {
             _ => head.clone(),
         };
         if let Some(fi) = self.reg.fns.get(&key).cloned() {
-            if fi.mut_self || fi.extra_params > 0 {
-                return Err(format!("call of `{}` (state-updating or cast-parameterised) is outside the subset", key));
-            }
-            let mut ls = vec![];
-            for a in &args {
-                ls.push(self.expr(a)?.0);
-            }
-            let f = self.qual(&fi.lean, &fi.module);
-            let call = L::App(f.clone(), ls.clone());
-            return Ok(if fi.trivial_in_range {
-                (call, fi.ret)
-            } else {
-                (L::Chk(Box::new(call), vec![Cond::Raw(format!("({})", L::App(format!("{}_inRange", f), ls).flat()))]), fi.ret)
-            });
+            return self.call_translated(&fi, vec![], &args);
         }
         // enum variant with payload
         if segs.len() >= 2 {
@@ -1513,12 +1522,7 @@ fn emit(
         (None, _) => {
             let self_l = cx.self_ty.clone().map(|s| cx.lean_ty(&Ty::Named(s))).unwrap_or_default();
             let fields: Vec<String> = cx.mutated.iter().cloned().collect();
-            let new_self = if fields.is_empty() {
-                "self".to_string()
-            } else {
-                let upd: Vec<String> = fields.iter().map(|f| format!("{} := self_{}", f, f)).collect();
-                format!("{{ self with {} }}", upd.join(", "))
-            };
+            let new_self = cx.new_self();
             let full_ret = if mut_self { format!("({} × {})", self_l, ret_l) } else { ret_l.clone() };
             let ret_fn = |v: &L| if mut_self { format!("({}, {})", new_self, v.flat()) } else { v.flat() };
             let mut init = String::new();
